@@ -160,6 +160,7 @@ func Run(id string, p *load.Program, tier string) *report.Result {
 	}
 	computeAliases(p)
 	fieldCanon = p.FieldName
+	fieldOwnerCanon = p.FieldOwner
 	usesLookup = func(id *ast.Ident) types.Object {
 		for _, pkg := range p.Pkgs {
 			if o := pkg.TypesInfo.Uses[id]; o != nil {
